@@ -85,6 +85,34 @@ def big_doc(rng, dm):
     return H + states + "</scxml>"
 
 
+def rich_doc(rng):
+    """a long pipeline whose stages use every element the C back-end keeps a table for: <send> with <param>/<content>/namelist,
+    <donedata> with params, <foreach>, <data>, <invoke> with params and <finalize>, <if>/<elseif>/<else>, <cancel>, <script>:
+    large enough for the DOM to spread over several heap regions (that is where pointer-keyed containers start to reorder)"""
+    n = rng.randint(20, 34)
+    out = ['<scxml xmlns="http://www.w3.org/2005/07/scxml" version="1.0" datamodel="lua" name="pipeline" initial="stage0">',
+           '<datamodel><data id="processed" expr="0"/><data id="failed" expr="0"/><data id="items" expr="{1, 2, 3}"/></datamodel>']
+    for i in range(n):
+        nxt = "stage%d" % (i + 1) if i + 1 < n else "done"
+        out.append('<state id="stage%d"><onentry><log label="pipeline" expr="\'entering stage %d\'"/>' % (i, i))
+        for k in range(rng.randint(1, 3)):
+            ps = "".join('<param name="p%d" expr="%d"/>' % (j, i * 10 + j) for j in range(rng.randint(1, 3)))
+            out.append('<send event="stage%d.s%d" %s>%s</send>' % (i, k, rng.choice(['target="#_internal"', 'delay="%dms"' % (10 + i), 'id="snd%d_%d"' % (i, k), 'namelist="processed"']), ps))
+        if rng.random() < 0.4: out.append('<foreach array="items" item="it%d" index="ix%d"><assign location="processed" expr="processed + it%d"/></foreach>' % (i, i, i))
+        if rng.random() < 0.4: out.append('<if cond="failed == 0"><raise event="ok%d"/><elseif cond="failed == 1"/><raise event="one%d"/><else/><cancel sendid="snd%d_0"/></if>' % (i, i, i))
+        if rng.random() < 0.3: out.append('<script>processed = processed + %d</script>' % i)
+        out.append('</onentry>')
+        if rng.random() < 0.25:
+            out.append('<invoke type="scxml" id="inv%d"><param name="seed" expr="%d"/><param name="stage" expr="%d"/><content><scxml xmlns="http://www.w3.org/2005/07/scxml" version="1.0" datamodel="lua"><final id="f"/></scxml></content>'
+                       '<finalize><assign location="processed" expr="processed + 1"/></finalize></invoke>' % (i, i, i))
+        out.append('<transition event="stage%d.s0" cond="failed == 0" target="%s"><assign location="processed" expr="processed + 1"/>'
+                   '<send event="stage.finished" target="#_internal"><param name="stage" expr="%d"/></send></transition>' % (i, nxt, i))
+        out.append('<transition event="stage%d.s0" target="aborted"/><transition event="error.execution" target="aborted"><assign location="failed" expr="failed + 1"/></transition></state>' % i)
+    out.append('<final id="done"><donedata><param name="processed" expr="processed"/><param name="failed" expr="failed"/></donedata></final>')
+    out.append('<final id="aborted"><donedata><content expr="failed"/></donedata></final></scxml>')
+    return "".join(out)
+
+
 def suite_interp(ctx, n):
     rng = ctx.rng
     cases = E.gen_cases(rng, n, p_fail=0.1)
@@ -113,8 +141,9 @@ def suite_emit(ctx, n):
     rng = ctx.rng
     docs = []
     for i in range(n):
-        fam = ("plain", "promela", "nested", "nested-promela", "big-promela", "big-plain")[i % 6]
-        if fam == "big-promela": docs.append((fam, big_doc(rng, "promela"), ["c", "promela"]))
+        fam = ("plain", "promela", "nested", "nested-promela", "big-promela", "big-plain", "big-rich")[i % 7]
+        if fam == "big-rich": docs.append((fam, rich_doc(rng), ["c"]))
+        elif fam == "big-promela": docs.append((fam, big_doc(rng, "promela"), ["c", "promela"]))
         elif fam == "big-plain": docs.append((fam, big_doc(rng, "null"), ["c", "vhdl"]))
         elif fam == "plain":
             g = charts.Gen(rng, max_states=rng.choice([3, 6, 10]), p_fail=0.05); docs.append((fam, charts.xml(g.chart()), ["c", "vhdl"]))
